@@ -258,6 +258,15 @@ Fixpoint map_res {A B} (f : A -> res B) (l : list A) : res (list B) :=
   | a :: r => do b <- f a; do bs <- map_res f r; Ok (b :: bs)
   end.
 
+(* jwe._attach_recipient_keys (decrypt_json, general and flattened; the single
+   recipient of decrypt_compact is the one-element case): the key of EVERY
+   recipient is looked up, in order, before anything is decrypted; the first
+   failing lookup is raised.  JWERegistry.verify_all_recipients is not an
+   input of this phase (it only governs perform_decrypt afterwards). *)
+Definition jwe_attach (tbl : list (string * list string)) (ch sch : chooser)
+           (kf : kflex) (sk : option sksrc) (gs : list guest) : res (list (key * option key * guest)) :=
+  map_res (jwe_select tbl ch sch false kf sk) gs.
+
 (* ---------- KeySet.as_dict / KeySet.import_key_set at the level of kid / kty / material ---------- *)
 Record jwk_entry := mkEntry { e_kty : option string; e_kid : option str; e_id : N; e_thumb : str }.
 
